@@ -31,6 +31,7 @@ def run_case(tape, tier):
                                 exits=[e[1] for e in run.trace if e[0] == "exit"], faults=dict(res.faults))
     res.event_digest = sched.trace_digest(run)
     res.scen_digest = digest(dict(p=sched.prog_readable(prog), f=sorted(res.faults.items())))
+    sched.check_runaway(run, res)
     res.comparisons = sched_oracles.check_forced_exits(run, res)
     if run.alive_at_end:
         res.violate("forced-exit-alive-at-return",
